@@ -110,6 +110,9 @@ pub fn cases(tier: Tier) -> CaseSet {
     for (d, spec) in crate::c06::zero_tag_family() {
         models.push((d, spec));
     }
+    for (d, spec) in crate::c06::extreme_tag_family().into_iter().step_by(tier.pick(3, 1)) {
+        models.push((d, spec));
+    }
     for (d, spec) in crate::c06::nested_tag_family().into_iter().step_by(tier.pick(11, 3)) {
         models.push((d, spec));
     }
@@ -128,7 +131,9 @@ pub fn cases(tier: Tier) -> CaseSet {
     for (d, spec) in crate::c01::many_entries_family(Tier::Quick) {
         models.push((d, spec));
     }
-    let texts = gen::strings(&['a', 'b', 'あ', '𠀋'], 1, 4);
+    let mut texts = gen::strings(&['a', 'b', 'あ', '𠀋'], 1, 4);
+    // a few texts longer than twice the large windows (the far end of long weight vectors)
+    texts.extend(crate::c01::long_window_texts().into_iter().take(3).map(|t| t.chars().collect::<Vec<char>>()));
     CaseSet { models, texts }
 }
 
